@@ -139,7 +139,12 @@ def _ad_req(c):
   i = z3.Int('ad_i')
   return z3.And(isref(h, up, 'list'), isref(h, pv, 'list'), ref(up) != ref(pv),
                 h.len(ref(up)) >= 0, h.len(ref(pv)) >= 0,
-                FA([i], z3.Implies(z3.And(0 <= i, i < h.len(ref(up))), is_VParam(h.elt(ref(up), i))),
+                FA([i], z3.Implies(
+                    z3.And(0 <= i, i < h.len(ref(up))),
+                    z3.And(is_VParam(h.elt(ref(up), i)),
+                           # a default is never the `empty` sentinel (inspect.Parameter)
+                           z3.Implies(sig_hasdef(psig(h.elt(ref(up), i)), pidx(h.elt(ref(up), i))),
+                                      sig_dflt(psig(h.elt(ref(up), i)), pidx(h.elt(ref(up), i))) != EMPTY))),
                    patterns=[h.elt(ref(up), i)]))
 
 
@@ -460,8 +465,7 @@ def _itk_terms(c):
 
 def _itk_req(c):
   h, g, a, L, idx, j = _itk_terms(c)
-  return z3.And(SigInfoInv(h, c['self']), StoreInv(h, g, c['arguments']), is_VInt(c['index']),
-                j >= 0)
+  return z3.And(SigInfoInv(h, c['self']), StoreInv(h, g, c['arguments']), is_VInt(c['index']))
 
 
 def _itk_post(c):
@@ -472,6 +476,7 @@ def _itk_post(c):
 contract(
     'signatures.SignatureInfo.index_to_key', F, 'SignatureInfo.index_to_key',
     requires=_itk_req, ensures=_itk_post, props=('C03',),
+    raises={'IndexError': lambda c: _itk_terms(c)[5] < 0},
     note='key of list position index (negative indices normalised by the full view length); '
-         'requires the normalised index to be >= 0 (callers must reject the rest)',
+         'IndexError iff the normalised index is still negative',
 )
